@@ -134,7 +134,65 @@ def gen_transl(r, n, names, lhs):
     return (None, 0, None)
 
 
+def gen_structured_grammar(r, with_transl=True):
+    """grammar families whose analysis / forest has a particular structure that random rules
+    rarely produce"""
+    names = iter('pqrstuvwxyz' * 6)
+    kind = r.choice(['follow-chain', 'follow-chain', 'shared-alts', 'shared-alts', 'first-chain', 'nullable-prefix', 'nullable-prefix'])
+    tn = ['a', 'b', 'c', 'd', 'e']
+    terms = gen_terms(r, 5)
+    rules = []
+    if kind in ('follow-chain', 'first-chain'):
+        # FOLLOW(C) must receive FIRST of a nonterminal whose FIRST set converges slowly
+        # (unit chain), through a rule `X : A B` with C at the end of A; symbol numbering varies
+        k = r.randint(2, 4)
+        chain = ['B'] + ['D%d' % i for i in range(k)]
+        body = [('S', ['A', 'd', 'X']), ('X', ['A', 'B']), ('A', ['a', 'C']), ('C', ['c'])]
+        links = [(x, [y]) for x, y in zip(chain, chain[1:])] + [(chain[-1], ['b'])]
+        if r.random() < 0.5: links = links[::-1]
+        if kind == 'first-chain': body[1] = ('X', ['B', 'A'])
+        if r.random() < 0.4: body.append(('C', []))
+        if r.random() < 0.3: body.append(('A', ['a']))
+        order = r.random()
+        rules = body + links if order < 0.4 else links + body if order < 0.7 else body[:2] + links + body[2:]
+        if rules[0][0] != 'S': rules = [x for x in rules if x[0] == 'S'] + [x for x in rules if x[0] != 'S']
+    elif kind == 'nullable-prefix':
+        # a rule with a nullable prefix before a nonterminal, reached twice in one set: as a
+        # situation with an older origin and as a freshly predicted one (`A : N . C`)
+        rules = [('S', ['P', 'A']), ('S', ['Q', 'A', 'e']), ('P', ['a', 'b']), ('Q', ['a']), ('A', ['N', 'C']),
+                 ('N', ['b']), ('N', []), ('C', ['c']), ('C', ['b', 'c'])]
+        if r.random() < 0.4: rules.append(('C', ['N', 'c']))
+        if r.random() < 0.3: rules[0] = ('S', ['P', 'A', 'A'])
+        if r.random() < 0.3: r.shuffle(rules); rules = [x for x in rules if x[0] == 'S'] + [x for x in rules if x[0] != 'S']
+    else:
+        # `S : B C D` with an ambiguous B/C border (copied abstract nodes) and an ambiguous D whose
+        # alternatives have different costs: alternative lists shared by node copies
+        costs = [r.choice([0, 1, 2, 5]) for _ in range(3)]
+        rules = [('S', ['B', 'C', 'D']), ('B', ['a']), ('B', ['a', 'a']), ('C', ['a']), ('C', ['a', 'a']),
+                 ('D', ['d']), ('D', ['d']), ('D', ['d'])]
+        if r.random() < 0.5: rules += [('C', [])]
+        if r.random() < 0.3: rules[0] = ('S', ['B', 'C', 'D', 'D'])
+    out = []
+    dcount = 0
+    for l, rh in rules:
+        if with_transl and kind == 'shared-alts':
+            if l == 'D':
+                an, cost, tr = ('d%d' % dcount, [r.choice([0, 1, 2, 5]) for _ in range(1)][0], [0]); dcount += 1
+            elif l == 'S': an, cost, tr = ('s', r.choice([0, 1]), list(range(len(rh))))
+            else: an, cost, tr = (next(names) + l.lower(), r.choice([0, 1, 3]), list(range(len(rh))))
+        elif with_transl: an, cost, tr = gen_transl(r, len(rh), names, l)
+        else: an, cost, tr = None, 0, None
+        out.append((l, an, cost, rh, tr))
+    st = r.random() < 0.6
+    if py_check(terms, out, st) == 0: return Grammar(terms, out, st)
+    if py_check(terms, out, False) == 0: return Grammar(terms, out, False)
+    return None
+
+
 def gen_grammar(r, nnt=None, nt_=None, err_prob=0.25, maxrules=3, strict=None, with_transl=True, tries=60):
+    if nnt is None and nt_ is None and strict is None and r.random() < 0.08:
+        g = gen_structured_grammar(r, with_transl)
+        if g is not None: return g
     """a random grammar accepted by the definition checks (if possible within `tries`)"""
     for _ in range(tries):
         nts = ['S', 'A', 'B', 'C', 'D'][:nnt or r.choice([1, 2, 2, 3, 3, 4, 5])]
